@@ -133,3 +133,120 @@ def run_all():
         except Exception as e:
             fails.append(f"{fn.__name__}: {type(e).__name__}: {e}")
     return fails
+
+
+BIP143_P2SH_P2WSH_TX = "010000000136641869ca081e70f394c6948e8af409e18b619df2ed74aa106c1ca29787b96e0100000000ffffffff0200e9a435000000001976a914389ffce9cd9ae88dcc0631e88a821ffdbe9bfe2688acc0832f05000000001976a9147480a33f950689af511e6e84c138dbbd3c3ee41588ac00000000"
+BIP143_WS = "56210307b8ae49ac90a048e9b53357a2354b3334e9c8bee813ecb98e99a7e07e8c3ba32103b28f0c28bfab54554ae8c658ac5c3e0ce6e79ad336331f78c428dd43eea8449b21034b8113d703413d57761b8b9781957b8c0ac1dfe69f492580ca4195f50376ba4a21033400f6afecb833092a9a21cfdf1ed1376e58c5d1f47de74683123987e967a8f42103a6d48b1131e94ba04d9737d61acdaa1322008af9602b3b14862c07a1789aac162102d8b661b0b3302ee2f162b09e07a55ad5dfbe673a9f01d9f0c19617681024306b56ae"
+BIP143_DIGESTS = {
+    0x01: "185c0be5263dce5b4bb50a047973c1b6272bfbd0103a89444597dc40b248ee7c",
+    0x02: "e9733bc60ea13c95c6527066bb975a2ff29a925e80aa14c213f686cbae5d2f36",
+    0x03: "1e1f1c303dc025bd664acb72e583e933fae4cff9148bf78c157d1e8f78530aea",
+    0x81: "2a67f03e63a6a422125878b40b82da593be8d4efaafe88ee528af6e5a9955c6e",
+    0x82: "781ba15f3779d5542ce8ecb5c18716733a5ee42a6f51488ec96154934e2c890a",
+    0x83: "511e8e52ed574121fc1b654970395502128263f62662e076dc6baf05c2e6a99b",
+}
+
+
+@check
+def sighash_bip143_all_types():
+    from ref import sighash
+
+    tx, _ = tm.parse_tx(bytes.fromhex(BIP143_P2SH_P2WSH_TX))
+    ws = bytes.fromhex(BIP143_WS)
+    for ht, want in BIP143_DIGESTS.items():
+        got = sighash.bip143(tx, 0, ws, 987654321, ht).hex()
+        assert got == want, (hex(ht), got)
+
+
+@check
+def sighash_and_secp_against_signed_mainnet_style_tx():
+    """BIP143's first example: input 0 is P2PK (legacy digest), input 1 is P2WPKH (BIP143 digest); the published
+    signatures must verify under the reference ECDSA with the reference digests."""
+    from ref import secp, sighash
+
+    raw = bytes.fromhex(
+        "01000000000102fff7f7881a8099afa6940d42d1e7f6362bec38171ea3edf433541db4e4ad969f00000000494830450221008b9d1dc26ba6a9cb62127b02742fa9d754cd3bebf337f7a55d114c8e5cdd30be022040529b194ba3f9281a99f2b1c0a19c0489bc22ede944ccf4ecbab4cc618ef3ed01eeffffffef51e1b804cc89d182d279655c3aa89e815b1b309fe287d9b2b55d57b90ec68a0100000000ffffffff02202cb206000000001976a9148280b37df378db99f66f85c95a783a76ac7a6d5988ac9093510d000000001976a9143bde42dbee7e4dbe6a21b2d50ce2f0167faa815988ac000247304402203609e17b84f6a7d30c80bfa610b5b4542f32a8a0d5447a12fb1366d7f01cc44a0220573a954c4518331561406f90300e8f3358f51928d43c212a8caed02de67eebee0121025476c2e83188368da1ff3e292e7acafcdb3566bb0ad253f62fc70f07aeee635711000000"
+    )
+    tx, _ = tm.parse_tx(raw)
+    # input 1: P2WPKH
+    sig, pk = tx["ins"][1]["witness"]
+    z = sighash.bip143(tx, 1, tm.spk_p2pkh(tm.hash160(pk)), 600000000, sig[-1])
+    assert z.hex() == "c37af31116d1b27caf68aae9e3ac82f1477929014d5b917657d0eb49478cb670", z.hex()
+    r, s = secp.parse_der_lax(sig[:-1])
+    assert secp.ecdsa_verify(secp.parse_sec(pk), int.from_bytes(z, "big"), r, s)
+    assert not secp.ecdsa_verify(secp.parse_sec(pk), int.from_bytes(z, "big") ^ 1, r, s)
+    assert not secp.ecdsa_verify(secp.parse_sec(pk), int.from_bytes(z, "big"), r, s + secp.N)
+    # input 0: P2PK, legacy digest over the scriptPubKey
+    spk0 = bytes.fromhex("2103c9f4836b9a4f77fc0d81f7bcb01b7f1b35916864b9476c241ce9fc198bd25432ac")
+    ss = tx["ins"][0]["script_sig"]
+    sig0 = ss[1 : 1 + ss[0]]
+    unsigned = tm.clone(tx)
+    z0 = sighash.legacy(unsigned, 0, spk0, sig0[-1])
+    r0, s0 = secp.parse_der_lax(sig0[:-1])
+    assert secp.ecdsa_verify(secp.parse_sec(spk0[1:34]), int.from_bytes(z0, "big"), r0, s0)
+
+
+@check
+def sighash_bip341_wallet_vectors():
+    import json
+    import os
+
+    from ref import secp, sighash
+
+    here = os.path.dirname(os.path.abspath(__file__))
+    v = json.load(open(os.path.join(here, "vectors", "bip341_spending.json")))
+    tx, _ = tm.parse_tx(bytes.fromhex(v["given"]["rawUnsignedTx"]))
+    spent = [(u["amountSats"], bytes.fromhex(u["scriptPubKey"])) for u in v["given"]["utxosSpent"]]
+    signed, _ = tm.parse_tx(bytes.fromhex(v["auxiliary"]["fullySignedTx"]))
+    seen = set()
+    for inp in v["inputSpending"]:
+        i = inp["given"]["txinIndex"]
+        ht = inp["given"]["hashType"]
+        seen.add(ht)
+        got = sighash.bip341(tx, i, spent, ht)
+        assert got.hex() == inp["intermediary"]["sigHash"], (i, ht, got.hex())
+        # tweak + signature
+        d = int(inp["given"]["internalPrivkey"], 16)
+        mr = bytes.fromhex(inp["given"]["merkleRoot"]) if inp["given"]["merkleRoot"] else b""
+        tweaked = secp.taproot_tweak_seckey(d, mr)
+        assert tweaked == int(inp["intermediary"]["tweakedPrivkey"], 16)
+        q = secp.taproot_tweak_pubkey(secp.xonly(secp.mul(d)), mr)
+        assert secp.xonly(q) == spent[i][1][2:]
+        wit = signed["ins"][i]["witness"][0]
+        assert secp.schnorr_verify(secp.xonly(q), got, wit[:64])
+        assert secp.schnorr_sign(tweaked, got) == wit[:64]
+    assert seen == {0, 1, 2, 3, 0x81, 0x82, 0x83}, seen
+    # legacy (input 2, P2PKH) and BIP143 (input 5, P2WPKH) signatures of the same transaction
+    ss = signed["ins"][2]["script_sig"]
+    sig = ss[1 : 1 + ss[0]]
+    pk = ss[2 + ss[0] :]
+    z = sighash.legacy(tx, 2, spent[2][1], sig[-1])
+    r, s = secp.parse_der_lax(sig[:-1])
+    assert secp.ecdsa_verify(secp.parse_sec(pk), int.from_bytes(z, "big"), r, s)
+    sig, pk = signed["ins"][5]["witness"]
+    z = sighash.bip143(tx, 5, tm.spk_p2pkh(tm.hash160(pk)), spent[5][0], sig[-1])
+    r, s = secp.parse_der_lax(sig[:-1])
+    assert secp.ecdsa_verify(secp.parse_sec(pk), int.from_bytes(z, "big"), r, s)
+
+
+@check
+def secp_basics():
+    from ref import secp
+
+    assert secp.mul(secp.N) is None and secp.mul(1) == secp.G
+    assert secp.add(secp.mul(5), secp.mul(7)) == secp.mul(12)
+    assert secp.add(secp.mul(5), secp.neg(secp.mul(5))) is None
+    assert secp.add(secp.G, secp.G) == secp.mul(2)
+    assert secp.parse_sec(secp.sec(secp.mul(12345))) == secp.mul(12345)
+    assert secp.parse_sec(secp.sec(secp.mul(12345), False)) == secp.mul(12345)
+    # BIP32 test vector 1: m/0'
+    k, c = secp.master_from_seed(bytes.fromhex("000102030405060708090a0b0c0d0e0f"))
+    assert k == 0xE8F32E723DECF4051AEFAC8E2C93C9C5B214313817CDB01A1494B917C8436B35
+    k1, c1 = secp.ckd_priv(k, c, 0x80000000)
+    assert k1 == 0xEDB2E14F9EE77D26DD93B4ECEDE8D16ED408CE149B6CD80B0715A2D911A0AFEA
+    k2, c2 = secp.ckd_priv(k1, c1, 1)
+    p2, cp2 = secp.ckd_pub(secp.mul(k1), c1, 1)
+    assert secp.mul(k2) == p2 and c2 == cp2
+    # RFC 6979 / low-S signing agrees with verification
+    r, s = secp.ecdsa_sign(12345, 67890)
+    assert secp.ecdsa_verify(secp.mul(12345), 67890, r, s) and s <= secp.N // 2
